@@ -159,7 +159,7 @@ func runSuites(c *Ctx, d *Driver, suites []Suite, rep *Report) error {
 				rep.Violations = append(rep.Violations, cs)
 				continue
 			}
-			if cs.Op != "" && cs.Impl != cs.Model {
+			if cs.Op != "" && cs.Impl != cs.Model && !(strings.HasPrefix(cs.cmpKeys, "=") && project(cs.Impl, cs.cmpKeys) == project(cs.Model, cs.cmpKeys)) {
 				if cs.Model == "BADOP" || cs.Impl == "BADOP" {
 					return fmt.Errorf("harness bug: BADOP for %q (impl=%q model=%q)", cs.Op, cs.Impl, cs.Model)
 				}
